@@ -339,6 +339,29 @@ def load_known(prop):
     return known
 
 
+class HarnessBuildFailed(Exception):
+    """The correspondence harness (cmd/verifharness + the white-box shims mounted with -overlay) does not compile against the
+    tree under check.  On the pinned tree it compiles, so the tree changed under it: the tie between model and code can no
+    longer be run.  `check` turns this into a violation that names the correspondence (no-failing-input-found)."""
+
+    def __init__(self, log):
+        Exception.__init__(self, "harness build failed:\n" + (log or ""))
+        self.log = log or ""
+
+
+def harness_unbuildable(ctx, exc):
+    report(ctx, "correspondence-unbuildable",
+           "the correspondence harness no longer compiles against this tree: the model cannot be run against the code",
+           {"kind": "obligation", "no_failing_input_found": True,
+            "broken": ["correspondence: harness/cmd/verifharness with harness/shims (go build -tags verif -overlay) against the tree"],
+            "go_log": exc.log[-4000:],
+            "note": "no input could be searched: the implementation side of the correspondence does not build"})
+    cov = {"evaluations": 0, "distinct_nontrivial": 0, "obligations": 1, "discharged": 0, "traces_validated_against_impl": 0,
+           "rule": "the harness did not build; nothing was run",
+           "samples": [{"broken": "harness build", "log_tail": exc.log[-600:]}]}
+    return finish(ctx, cov, ["harness must compile against the tree for the correspondence to be checked"])
+
+
 def report(ctx, key, what, replay_obj):
     """Record a violation.  key identifies the specific failing input class;
     if known_findings lists it as `known` it is printed as KNOWN-FINDING."""
